@@ -178,7 +178,7 @@ type HSM struct {
 	// Calls, when non-nil, counts Sign calls (only set where the stub is not
 	// shared between tasks).
 	Calls *int
-	Mode  string // "", "err", "empty", "badDER", "trailing", "negative", "oversize", "chosen"
+	Mode  string // "", "err", "empty", "bytes+err", "badDER", "trailing", "negative", "oversize", "chosen"
 	R, S  *big.Int
 }
 
@@ -204,6 +204,10 @@ func (h *HSM) Sign(rand io.Reader, digest []byte, opts crypto.SignerOpts) ([]byt
 		return nil, err
 	}
 	switch h.Mode {
+	case "bytes+err":
+		// a device client that fills the caller's buffer (here even with a
+		// genuine signature) and reports a failure all the same
+		return sig, ErrHSM
 	case "badDER":
 		out := append([]byte{}, sig...)
 		out[0] ^= 0x21
